@@ -33,6 +33,16 @@ Theorem c05_array_elements : forall (fac : eunit -> Q), (forall u, ~ fac u == 0)
 Proof. intros fac Hf u. split; [exact (elt_zero fac u)|intros x Hx; exact (elt_nonzero fac u x Hx)]. Qed.
 Print Assumptions c05_array_elements.
 
+(* lengths: supplied under u and read under v is the exact ratio of the two factors, for all 7 x 7 pairs *)
+Theorem c05_length_conversion_exact : forall (facl : lunit -> Q), (forall u, ~ facl u == 0) ->
+  (forall u v x, convert_l facl u v x == x * facl u / facl v) /\
+  (forall u x, convert_l facl u u x == x) /\
+  (forall u v w x, convert_l facl v w (convert_l facl u v x) == convert_l facl u w x).
+Proof.
+  intros facl Hf. split; [exact (conv_l_exact facl)|]. split; [exact (roundtrip_l facl Hf)|exact (conv_l_compose facl Hf)].
+Qed.
+Print Assumptions c05_length_conversion_exact.
+
 (* every program of (nested) energy/length contexts, exceptions, handlers and builds restores units,
    nesting counter and flag, whether it ends normally or by an exception *)
 Theorem c05_contexts_restore_units : forall p, repaired p = true -> forall s, consistent s ->
